@@ -350,4 +350,93 @@ theorem tail_iterations_not_counted (cfg : Cfg) (htco : cfg.tco = true) (h : Nat
   rw [this]
   simp [hl]
 
+/-! ### 7. need-based exactness: a limit above the need never fires
+
+`evalI` (CoreLimits.lean) is the same evaluator without any check, recording the number of user calls
+(`calls`), the greatest frame height created (`maxH`) and the greatest tail-iteration count reached by
+a trampoline (`maxRec`) — the *need* of a run. `evalI` never ends in a violation (`noViolI`). -/
+
+/-- All three limits set (`cfgL tco Ld Lc Lr`), start state `st`: if the need of the run stays below
+the limits — every frame height `< Ld` (depth check `≥`), the calls made on top of `st.calls` `< Lc`
+(call check `≥`), every tail-iteration count `≤ Lr` (recursion check `>`) — the limited run is the
+instrumented run: same result (never a violation), same output, counter advanced by the calls made. -/
+theorem limits_above_need_exact (tco : Bool) (Ld Lc Lr fuel : Nat) (st : St) :
+    (∀ fr e tail, let q := evalI fuel tco fr e tail { out := st.out }
+      q.2.maxH < Ld → st.calls + q.2.calls < Lc → q.2.maxRec ≤ Lr →
+      eval fuel (cfgL tco Ld Lc Lr) fr e tail st = (q.1, { out := q.2.out, calls := st.calls + q.2.calls }) ∧
+      ∀ k, q.1 ≠ .viol k) ∧
+    (∀ h c args, let q := callUserI fuel tco h c args { out := st.out }
+      q.2.maxH < Ld → st.calls + q.2.calls < Lc → q.2.maxRec ≤ Lr →
+      callUser fuel (cfgL tco Ld Lc Lr) h c args st = (q.1, { out := q.2.out, calls := st.calls + q.2.calls }) ∧
+      ∀ k, q.1 ≠ .viol k) ∧
+    (∀ fr ds, let q := evalDeclsI fuel tco fr ds { out := st.out }
+      q.2.maxH < Ld → st.calls + q.2.calls < Lc → q.2.maxRec ≤ Lr →
+      evalDecls fuel (cfgL tco Ld Lc Lr) fr ds st = (q.1, { out := q.2.out, calls := st.calls + q.2.calls }) ∧
+      ∀ k, q.1 ≠ .error (.viol k)) := by
+  have H := simI tco Ld Lc Lr st.calls fuel
+  have N := noViolI tco fuel
+  have hst : TI st.calls { out := st.out } = st := rfl
+  refine ⟨?_, ?_, ?_⟩
+  · intro fr e tail q h1 h2 h3
+    have := H.eval fr e tail { out := st.out } ⟨h1, h2, h3⟩
+    rw [hst] at this
+    exact ⟨this, (not_viol_iff _).mp (N.eval fr e tail _)⟩
+  · intro h c args q h1 h2 h3
+    have := H.callUser h c args { out := st.out } ⟨h1, h2, h3⟩
+    rw [hst] at this
+    exact ⟨this, (not_viol_iff _).mp (N.callUser h c args _)⟩
+  · intro fr ds q h1 h2 h3
+    have := H.evalDecls fr ds { out := st.out } ⟨h1, h2, h3⟩
+    rw [hst] at this
+    exact ⟨this, (ex_not_viol_iff _).mp (N.evalDecls fr ds _)⟩
+
+/-- **A limit above the need never fires**, for any configuration (each limit set or not): if every
+configured limit exceeds the need of the run (depth limit `>` greatest frame height; call limit `>`
+calls made, counted from `st.calls`; recursion limit `≥` greatest tail-iteration count), the run under
+`cfg` ends in the result of the unchecked run — not a violation — with the same output. In particular:
+depth limit `>` max height ⇒ no depth violation; recursion limit `≥` max consecutive tail count ⇒ no
+recursion violation. -/
+theorem no_violation_when_limits_exceed_need (cfg : Cfg) (fuel : Nat) (st : St) :
+    (∀ fr e tail, let q := evalI fuel cfg.tco fr e tail { out := st.out }
+      (∀ l, cfg.depthLimit = some l → q.2.maxH < l) → (∀ l, cfg.callLimit = some l → st.calls + q.2.calls < l) →
+      (∀ l, cfg.recLimit = some l → q.2.maxRec ≤ l) →
+      (∃ s', eval fuel cfg fr e tail st = (q.1, s') ∧ s'.out = q.2.out) ∧ ∀ k, q.1 ≠ .viol k) ∧
+    (∀ ds, let q := evalDeclsI fuel cfg.tco { env := [], self := none, height := 0 } ds {}
+      (∀ l, cfg.depthLimit = some l → q.2.maxH < l) → (∀ l, cfg.callLimit = some l → q.2.calls < l) →
+      (∀ l, cfg.recLimit = some l → q.2.maxRec ≤ l) →
+      (∃ s', runProgram fuel cfg ds = (q.1, s') ∧ s'.out = q.2.out) ∧ ∀ k, q.1 ≠ .error (.viol k)) := by
+  have hle : ∀ (a b c : Nat), (∀ l, cfg.depthLimit = some l → a < l) → (∀ l, cfg.callLimit = some l → b < l) →
+      (∀ l, cfg.recLimit = some l → c ≤ l) →
+      CfgLe (cfgL cfg.tco (cfg.depthLimit.getD (a + 1)) (cfg.callLimit.getD (b + 1)) (cfg.recLimit.getD c)) cfg ∧
+      a < cfg.depthLimit.getD (a + 1) ∧ b < cfg.callLimit.getD (b + 1) ∧ c ≤ cfg.recLimit.getD c := by
+    intro a b c h1 h2 h3
+    refine ⟨⟨rfl, ?_, ?_, ?_⟩, ?_, ?_, ?_⟩
+    · cases h : cfg.depthLimit <;> simp [cfgL, optLe]
+    · cases h : cfg.recLimit <;> simp [cfgL, optLe]
+    · cases h : cfg.callLimit <;> simp [cfgL, optLe]
+    · cases h : cfg.depthLimit with
+      | none => simp
+      | some l => simpa using h1 l h
+    · cases h : cfg.callLimit with
+      | none => simp
+      | some l => simpa using h2 l h
+    · cases h : cfg.recLimit with
+      | none => simp
+      | some l => simpa using h3 l h
+  refine ⟨?_, ?_⟩
+  · intro fr e tail q h1 h2 h3
+    obtain ⟨hcle, k1, k2, k3⟩ := hle q.2.maxH (st.calls + q.2.calls) q.2.maxRec h1 h2 h3
+    obtain ⟨e1, nv⟩ := (limits_above_need_exact cfg.tco _ _ _ fuel st).1 fr e tail k1 k2 k3
+    exact ⟨(limit_monotone_same_start _ cfg hcle fuel).1 fr e tail st _ _ e1 nv, nv⟩
+  · intro ds q h1 h2 h3
+    obtain ⟨hcle, k1, k2, k3⟩ := hle q.2.maxH (0 + q.2.calls) q.2.maxRec h1 (by simpa using h2) h3
+    obtain ⟨e1, nv⟩ := (limits_above_need_exact cfg.tco _ _ _ fuel {}).2.2 { env := [], self := none, height := 0 } ds k1 k2 k3
+    exact ⟨(limit_monotone_same_start _ cfg hcle fuel).2.2 ds _ _ e1 nv, nv⟩
+
+-- the need of the loop program (tco on): one call, frame height 1, two tail iterations;
+-- limits just above it do not fire (theorem), limits at it do (`rfl` examples above)
+example : (evalDeclsI 20 true { env := [], self := none, height := 0 } progLoop {}).2.calls = 1 ∧
+    (evalDeclsI 20 true { env := [], self := none, height := 0 } progLoop {}).2.maxH = 1 ∧
+    (evalDeclsI 20 true { env := [], self := none, height := 0 } progLoop {}).2.maxRec = 2 := ⟨rfl, rfl, rfl⟩
+
 end XrayModel.C08
